@@ -86,7 +86,7 @@ def _work_cpp(ti, on, t, tu):
             lg = codec.QueryLog(); lg.unknown.append(f"{type(e).__name__}: {str(e)[-300:]}")
         out.append((ti, on, f"deserialize L={L} (memory + heap obligations)", lg, tu, time.time() - t0))
     # the outcome depends only on the input bytes, never on what the destination OBJECT held before (a valid earlier value)
-    for L in sorted({0, (mx + 1) // 2, mx}):
+    for L in ([] if cc.ser_only(t) else sorted({0, (mx + 1) // 2, mx})):
         t0 = time.time()
         try:
             lg = codec.des_queries(tu, L, check_ub="mem", functional=False, uninit_dst=True, entry="h_des_prior")
